@@ -1,0 +1,317 @@
+//go:build verif
+
+// Contracts for package crypto, read only by /verif/bin/vcheck (comment-only file: no effect on any build).
+// Syntax: see /verif/DESIGN.md §2.3. `func` contracts are proved against the Go bodies; `cfunc` contracts are
+// the contracts of the C glue functions (used at the cgo call sites, proved against the C bodies by the C front-end).
+package crypto
+
+// ---------------------------------------------------------------------------------------------
+// error classes (errors.As / errors.Is): typed constructors. The class facts about the wrapped
+// fmt.Errorf value are assumed (no call site passes a tracked error through a typed constructor).
+
+//@ func invalidInputsErrorf trusted pure
+//@ assigns nothing
+//@ ensures result != nil && iserr(result, *invalidInputsError) && !iserr(result, *dkgInvalidStateTransitionError) && !iserr(result, *dkgFailureError) && !iserr(result, *invalidHasherSizeError) && !iserr(result, *notEnoughSharesError) && !iserr(result, *duplicatedSignerError)
+
+//@ func dkgInvalidStateTransitionErrorf trusted pure
+//@ assigns nothing
+//@ ensures result != nil && iserr(result, *dkgInvalidStateTransitionError) && !iserr(result, *invalidInputsError) && !iserr(result, *dkgFailureError)
+
+//@ func dkgFailureErrorf trusted pure
+//@ assigns nothing
+//@ ensures result != nil && iserr(result, *dkgFailureError) && !iserr(result, *invalidInputsError) && !iserr(result, *dkgInvalidStateTransitionError)
+
+//@ func invalidHasherSizeErrorf trusted pure
+//@ assigns nothing
+//@ ensures result != nil && iserr(result, *invalidHasherSizeError) && !iserr(result, *invalidInputsError)
+
+// ---------------------------------------------------------------------------------------------
+// DKGProcessor: ghost counters record what an instance emits (guarantee side of C08).
+
+//@ ghost field DKGProcessor.nBroadcast int
+//@ ghost field DKGProcessor.nPrivate int
+//@ ghost field DKGProcessor.nFlag int
+//@ ghost field DKGProcessor.nDisq int
+//@ ghost field DKGProcessor.sentComplaint [256]int
+//@ ghost field DKGProcessor.sentAnswer [256]int
+//@ ghost field DKGProcessor.sentVector [256]int
+
+//@ func (DKGProcessor).Broadcast params self data
+//@ assigns self.nBroadcast, self.sentComplaint[:], self.sentAnswer[:], self.sentVector[:]
+//@ ensures self.nBroadcast == old(self.nBroadcast) + 1
+//@ ensures forall(d, 0, 256, self.sentComplaint[d] == old(self.sentComplaint[d]) + ite(len(data) == 2 && data[0] == 2 && data[1] == d, 1, 0))
+//@ ensures forall(d, 0, 256, self.sentAnswer[d] == old(self.sentAnswer[d]) + ite(len(data) == 34 && data[0] == 3 && data[1] == d, 1, 0))
+
+//@ func (DKGProcessor).PrivateSend params self dest data
+//@ assigns self.nPrivate
+//@ ensures self.nPrivate == old(self.nPrivate) + 1
+
+//@ func (DKGProcessor).FlagMisbehavior params self index log
+//@ assigns self.nFlag
+//@ ensures self.nFlag == old(self.nFlag) + 1
+
+//@ func (DKGProcessor).Disqualify params self index log
+//@ assigns self.nDisq
+//@ ensures self.nDisq == old(self.nDisq) + 1
+
+// ---------------------------------------------------------------------------------------------
+// C glue used by the DKG and serialization code.
+
+//@ cfunc Fr_star_read_bytes props C05 C09
+//@ requires a != nil
+//@ requires in_len == 32 ==> valid(in, 32)
+//@ assigns *a
+//@ ensures result == valid || result == badEncoding || result == badValue
+//@ ensures in_len != 32 ==> result == badEncoding
+
+//@ cfunc Fr_write_bytes props C05 C09
+//@ requires a != nil && valid(out, 32)
+//@ assigns out[0:32]
+
+//@ cfunc Fr_is_zero pure
+//@ requires a != nil
+//@ assigns nothing
+
+//@ cfunc E2_is_infty pure
+//@ requires p != nil
+//@ assigns nothing
+
+//@ cfunc G2_check_log pure props C07 C09
+//@ requires x != nil && y != nil
+//@ assigns nothing
+
+//@ cfunc G2_mult_gen_to_affine props C09
+//@ requires res != nil && expo != nil
+//@ assigns *res
+
+//@ cfunc G2_vector_read_bytes props C07 C09
+//@ requires A_len >= 0 && valid(A, A_len) && valid(src, 96*A_len)
+//@ assigns A[0:A_len]
+//@ ensures (result == valid) == g2vecValid(src[0:96*A_len], A_len)
+
+//@ cfunc E2_vector_write_bytes props C09
+//@ requires A_len >= 0 && valid(A, A_len) && valid(out, 96*A_len)
+//@ assigns out[0:96*A_len]
+
+//@ cfunc E2_polynomial_images props C07 C09
+//@ requires 0 <= len_y && len_y <= 255 && degree >= 0 && valid(y, len_y) && valid(A, degree+1)
+//@ assigns y[0:len_y]
+
+//@ cfunc Fr_polynomial_image_write props C06 C09
+//@ requires degree >= 0 && valid(out, 32) && valid(a, degree+1) && (y == nil || valid(y, 1))
+//@ assigns out[0:32], y[0:1]
+
+//@ cfunc map_bytes_to_Fr props C12 C09
+//@ requires a != nil && in_len >= 0 && valid(in, in_len)
+//@ assigns *a
+
+//@ cfunc Fr_sum_vector props C04 C09
+//@ requires jointx != nil && x_len >= 0 && valid(x, x_len)
+//@ assigns *jointx
+
+//@ cfunc E2_sum_vector_to_affine props C04 C09
+//@ requires sum != nil && y_len >= 0 && valid(y, y_len)
+//@ assigns *sum
+
+// ---------------------------------------------------------------------------------------------
+// small Go wrappers around the C glue
+
+//@ func readScalarFrStar mode int props C05 C09
+//@ requires a != nil
+//@ assigns *a
+//@ ensures result == nil || iserr(result, *invalidInputsError)
+//@ ensures len(src) != 32 ==> result != nil
+
+//@ func readVerifVector mode int props C07 C09
+//@ requires len(src) == 96*len(A) && len(A) >= 1
+//@ assigns A[:]
+//@ ensures result == nil || iserr(result, *invalidInputsError)
+//@ ensures (result == nil) == g2vecValid(src, len(A))
+
+//@ func writeVerifVector mode int props C09
+//@ requires len(A) >= 1 && len(dest) >= 96*len(A)
+//@ assigns dest[0:96*len(A)]
+
+//@ func frPolynomialImage mode int props C06 C09
+//@ requires len(dest) >= 32 && len(a) >= 1 && (y == nil || valid(y, 1))
+//@ assigns dest[0:32], y[0:1]
+
+//@ func E2PolynomialImages mode int props C07 C09
+//@ requires 1 <= len(out) && len(out) <= 255 && len(A) >= 1
+//@ assigns out[:]
+
+//@ func generatorScalarMultG2 mode int props C09
+//@ requires res != nil && expo != nil
+//@ assigns *res
+
+//@ func (*scalar).isZero mode int props C09
+//@ requires x != nil
+//@ assigns nothing
+
+//@ func (*pointE2).isInfinity mode int props C09
+//@ requires p != nil
+//@ assigns nothing
+
+// ---------------------------------------------------------------------------------------------
+// hashing / randomness helpers used by key generation
+
+//@ func randFr mode int props C06 C09
+//@ requires x != nil && rand != nil
+//@ assigns *x, obj(rand)
+
+//@ func randFrStar mode int props C06 C09
+//@ requires x != nil && rand != nil
+//@ assigns *x, obj(rand)
+//@ loop 1 assigns *x, obj(rand)
+
+//@ func mapToFr mode int props C12 C09
+//@ requires x != nil && len(src) >= 1
+//@ assigns *x
+
+//@ func generateFrPolynomial mode int props C06 C09
+//@ requires 0 <= degree && degree <= 254
+//@ assigns nothing
+//@ ensures [short-seed] len(seed) < 32 ==> result1 != nil && iserr(result1, *invalidInputsError)
+//@ ensures [ok] len(seed) >= 32 ==> result1 == nil && len(result0) == degree+1 && fresh(result0)
+//@ loop 1 invariant [i] 1 <= i && i <= degree
+//@ loop 1 invariant [a] len(a) == degree+1 && fresh(a)
+//@ loop 1 invariant [prg] prg != nil && fresh(prg)
+//@ loop 1 invariant [sep] obj(prg.genericPRG.randCore) != obj(a)
+//@ loop 1 assigns a[:], obj(prg), obj(prg.genericPRG.randCore)
+
+// ---------------------------------------------------------------------------------------------
+// DKG common part
+
+//@ heaptype complaint
+
+// package-level size variables (assigned once, by their declarations)
+//@ global shareSize == 32 && verifVectorSize == 96 && complaintSize == 1 && complaintAnswerSize == 33
+
+//@ pred commonOK(c) = c != nil && 2 <= c.size && c.size <= 254 && 1 <= c.threshold && c.threshold < c.size && c.myIndex < c.size && c.processor != nil
+
+//@ func newDKGCommon mode int props C10 C09
+//@ assigns nothing
+//@ ensures [reject] (size < 2 || size > 254 || myIndex >= size || dealerIndex >= size || myIndex < 0 || dealerIndex < 0 || threshold >= size || threshold < 1) ==> result0 == nil && iserr(result1, *invalidInputsError)
+//@ ensures [accept] !(size < 2 || size > 254 || myIndex >= size || dealerIndex >= size || myIndex < 0 || dealerIndex < 0 || threshold >= size || threshold < 1) ==> result1 == nil && result0 != nil && fresh(result0) && result0.size == size && result0.threshold == threshold && result0.myIndex == myIndex && !result0.running && result0.processor == processor
+
+//@ func (*dkgCommon).Running mode int props C10
+//@ requires s != nil
+//@ assigns nothing
+//@ ensures result == s.running
+
+//@ func (*dkgCommon).Size mode int props C10 C09
+//@ requires s != nil
+//@ assigns nothing
+//@ ensures result == s.size
+
+//@ func (*dkgCommon).Threshold mode int props C10
+//@ requires s != nil
+//@ assigns nothing
+//@ ensures result == s.threshold
+
+//@ func (*dkgCommon).NextTimeout mode int props C10
+//@ assigns nothing
+//@ ensures result == nil
+
+// ---------------------------------------------------------------------------------------------
+// plain Feldman VSS
+
+// g2vecValid(bytes, n): the n*96 bytes are the canonical encodings of n points of G2
+// vssInv: representation invariant of a plain Feldman VSS instance
+//@ pred vssShape(s) = s != nil && commonOK(s.dkgCommon) && obj(s.dkgCommon) != obj(s) && s.dealerIndex < s.size
+//@ pred vssInv(s) = vssShape(s) && (s.vAReceived ==> len(s.vA) == s.threshold+1 && len(s.y) == s.size) && (s.validKey ==> s.vAReceived && s.xReceived)
+
+//@ func (*feldmanVSSstate).init mode int props C10
+//@ requires s != nil && s.dkgCommon != nil && obj(s.dkgCommon) != obj(s)
+//@ assigns s.running, s.y, s.xReceived, s.vAReceived
+//@ ensures !s.running && !s.xReceived && !s.vAReceived && len(s.y) == 0
+
+//@ func NewFeldmanVSS mode int props C10 C09
+//@ assigns nothing
+//@ ensures [reject] (size < 2 || size > 254 || myIndex >= size || dealerIndex >= size || myIndex < 0 || dealerIndex < 0 || threshold >= size || threshold < 1) ==> result0 == nil && iserr(result1, *invalidInputsError)
+//@ ensures [accept] !(size < 2 || size > 254 || myIndex >= size || dealerIndex >= size || myIndex < 0 || dealerIndex < 0 || threshold >= size || threshold < 1 || processor == nil) ==> result1 == nil && typeis(result0, *feldmanVSSstate) && vssInv(unbox(result0, *feldmanVSSstate)) && !unbox(result0, *feldmanVSSstate).running && !unbox(result0, *feldmanVSSstate).validKey
+
+//@ func (*feldmanVSSstate).verifyShare mode int props C08 C09
+//@ requires vssShape(s) && len(s.y) == s.size
+//@ assigns nothing
+
+//@ func (*feldmanVSSstate).computePublicKeys mode int props C07 C09
+//@ requires vssShape(s) && len(s.y) == s.size && len(s.vA) == s.threshold+1
+//@ assigns s.y[:]
+
+//@ func (*feldmanVSSstate).Start mode int props C10 C09
+//@ requires vssInv(s)
+//@ assigns *s, s.running, s.processor.nPrivate, s.processor.nBroadcast, s.processor.sentComplaint[:], s.processor.sentAnswer[:], s.processor.sentVector[:]
+//@ ensures [reject-running] old(s.running) ==> iserr(result, *dkgInvalidStateTransitionError) && nothingAssigned()
+//@ ensures [started] !old(s.running) && result == nil ==> s.running
+//@ ensures [inv] vssInv(s)
+
+//@ func (*feldmanVSSstate).generateShares mode int props C06 C09
+//@ requires vssInv(s) && s.running
+//@ assigns *s, s.processor.nPrivate, s.processor.nBroadcast, s.processor.sentComplaint[:], s.processor.sentAnswer[:], s.processor.sentVector[:]
+//@ ensures [ok] result == nil ==> s.vAReceived && s.xReceived && s.validKey && len(s.vA) == s.threshold+1 && len(s.y) == s.size && len(s.a) == s.threshold+1
+//@ ensures [error] result != nil ==> unchanged(s.vAReceived) && unchanged(s.xReceived) && unchanged(s.validKey) && vssInv(s)
+//@ ensures unchanged(s.dkgCommon) && unchanged(s.dealerIndex)
+//@ loop 1 invariant 0 <= i && i <= s.threshold+1 && len(s.vA) == s.threshold+1 && len(s.a) == s.threshold+1 && len(s.y) == s.size && fresh(s.vA) && fresh(s.a) && fresh(s.y) && vssShape(s) && unchanged(s.dkgCommon) && unchanged(s.dealerIndex)
+//@ loop 1 assigns s.vA[:]
+//@ loop 2 invariant 1 <= i && i <= s.size+1 && len(s.vA) == s.threshold+1 && len(s.a) == s.threshold+1 && len(s.y) == s.size && fresh(s.vA) && fresh(s.a) && fresh(s.y) && vssShape(s) && unchanged(s.dkgCommon) && unchanged(s.dealerIndex)
+//@ loop 2 assigns s.y[:], s.x, s.processor.nPrivate
+
+//@ func (*feldmanVSSstate).End mode int props C10 C08 C09
+//@ requires vssInv(s)
+//@ assigns s.running
+//@ ensures [reject-idle] !old(s.running) ==> iserr(result3, *dkgInvalidStateTransitionError) && nothingAssigned() && result0 == nil && result1 == nil && len(result2) == 0
+//@ ensures [ends] !s.running
+//@ ensures [no-keys-unless-valid] old(s.running) && !old(s.validKey) ==> iserr(result3, *dkgFailureError) && result0 == nil && result1 == nil && len(result2) == 0
+//@ ensures [class] old(s.running) && result3 != nil ==> iserr(result3, *dkgFailureError)
+//@ loop 1 invariant len(y) == s.size && len(s.y) == s.size && fresh(y)
+
+//@ func (*feldmanVSSstate).HandleBroadcastMsg mode int props C10 C08 C09
+//@ requires vssInv(s)
+//@ assigns *s, s.processor.nDisq, s.processor.nFlag
+//@ ensures [reject-idle] !old(s.running) ==> iserr(result, *dkgInvalidStateTransitionError) && nothingAssigned()
+//@ ensures [reject-origin] old(s.running) && (orig < 0 || orig >= s.size) ==> iserr(result, *invalidInputsError) && nothingAssigned()
+//@ ensures [accept] old(s.running) && 0 <= orig && orig < s.size ==> result == nil
+//@ ensures [inv] vssInv(s) && unchanged(s.running)
+
+//@ func (*feldmanVSSstate).HandlePrivateMsg mode int props C10 C08 C09
+//@ requires vssInv(s)
+//@ assigns *s, s.processor.nDisq, s.processor.nFlag
+//@ ensures [reject-idle] !old(s.running) ==> iserr(result, *dkgInvalidStateTransitionError) && nothingAssigned()
+//@ ensures [reject-origin] old(s.running) && (orig < 0 || orig >= s.size) ==> iserr(result, *invalidInputsError) && nothingAssigned()
+//@ ensures [accept] old(s.running) && 0 <= orig && orig < s.size ==> result == nil
+//@ ensures [inv] vssInv(s) && unchanged(s.running)
+
+//@ func (*feldmanVSSstate).ForceDisqualify mode int props C10 C09
+//@ requires vssInv(s)
+//@ assigns s.validKey
+//@ ensures [reject-idle] !old(s.running) ==> iserr(result, *dkgInvalidStateTransitionError) && nothingAssigned()
+//@ ensures [reject-index] old(s.running) && (participant < 0 || participant >= s.size) ==> iserr(result, *invalidInputsError) && nothingAssigned()
+//@ ensures [accept] old(s.running) && 0 <= participant && participant < s.size ==> result == nil && (participant == s.dealerIndex ==> !s.validKey)
+//@ ensures [inv] vssInv(s)
+
+//@ func (*feldmanVSSstate).receiveShare mode int props C08 C09
+//@ requires vssInv(s) && s.running
+//@ assigns *s, s.processor.nFlag
+//@ ensures [inv] vssInv(s) && unchanged(s.dkgCommon) && unchanged(s.dealerIndex)
+//@ ensures [malformed-share-invalidates] old(!s.xReceived && origin == s.dealerIndex && (len(data) != 33 || data[0] != 0)) ==> !s.validKey
+
+//@ func (*feldmanVSSstate).receiveVerifVector mode int props C08 C09
+//@ requires vssInv(s) && s.running
+//@ assigns *s, s.processor.nFlag, s.processor.nDisq
+//@ ensures [inv] vssInv(s) && unchanged(s.dkgCommon) && unchanged(s.dealerIndex)
+//@ ensures [bad-size-invalidates] old(!s.vAReceived && origin == s.dealerIndex && len(data) != 96*(s.threshold+1)) ==> !s.validKey
+//@ ensures [bad-vector-invalidates] old(!s.vAReceived && origin == s.dealerIndex && len(data) == 96*(s.threshold+1) && !g2vecValid(data, s.threshold+1)) ==> !s.validKey
+
+// ---------------------------------------------------------------------------------------------
+// BLS key objects
+
+//@ func newPrKeyBLSBLS12381 mode int props C12 C09
+//@ assigns nothing
+//@ ensures result != nil && fresh(result) && result.pk == nil
+//@ ensures x != nil ==> result.scalar == *x
+
+//@ func newPubKeyBLSBLS12381 mode int props C04 C09
+//@ assigns nothing
+//@ ensures result != nil && fresh(result)
+//@ ensures p != nil ==> result.point == *p
